@@ -219,3 +219,33 @@ Example reader_example :
      ("b.yml", doc [inc [("c", "c.yml")]]);
      ("c.yml", doc [inc [("r", "")]])] 5 = RErr code_cycle.
 Proof. vm_compute. reflexivity. Qed.
+
+(* depth does not matter: a chain Taskfile.yml -> l1.yml -> ... -> l12.yml (13 files) is read with
+   fuel 14 = number of files + 1, the bound of reader_terminates; so is a wide-and-nested tree
+   (10 siblings, each including a file of its own) *)
+Fixpoint chain_files (n : nat) (name : string) : list (string * ynode) :=
+  match n with
+  | 0 => [(name, doc [(k "tasks", YMap [(k "leaf", k "echo leaf")])])]
+  | S m =>
+      let next := ("l" ++ name)%string in
+      (name, doc [(k "includes", YMap [(k "n", k next)]); (k "tasks", YMap [(k "t", k "echo level")])])
+      :: chain_files m next
+  end.
+
+Example reader_deep_chain :
+  let fs := chain_files 12 root_name in
+  List.length fs = 13 /\
+  match read repaired ex_oracles fs (S (List.length fs)) with RDone vis _ => List.length vis = 13 | _ => False end.
+Proof. vm_compute. split; reflexivity. Qed.
+
+Definition wide_files (w : nat) : list (string * ynode) :=
+  let ids := map (fun i => String (Ascii.ascii_of_nat (97 + i)) EmptyString) (seq 0 w) in
+  (root_name, doc [(k "includes", YMap (map (fun i => (k i, k ("s" ++ i)%string)) ids))])
+  :: flat_map (fun i => [(("s" ++ i)%string, doc [(k "includes", YMap [(k "c", k ("c" ++ i)%string)])]);
+                         (("c" ++ i)%string, doc [(k "tasks", YMap [(k "leaf", k "echo leaf")])])]) ids.
+
+Example reader_wide_nested :
+  let fs := wide_files 10 in
+  List.length fs = 21 /\
+  match read repaired ex_oracles fs (S (List.length fs)) with RDone vis _ => List.length vis = 21 | _ => False end.
+Proof. vm_compute. split; reflexivity. Qed.
